@@ -57,7 +57,7 @@ func c20Cfg(target string) lab.Cfg {
 	switch target {
 	case "path-v1":
 		return lab.Cfg{V1: true}
-	case "path-v2":
+	case "path-v2", "path-v2-first-header-fails":
 		return lab.Cfg{}
 	case "path-v2-opts":
 		return lab.Cfg{DataPad: 5, IndexPad: 3, Sorted: true, StoreID: true}
@@ -131,8 +131,16 @@ func c20RunHistory(t *mon.T, target string, hist []string, dir string) {
 		dopts.V1 = false
 		w = deferred.NewDeferredCarWriterForStream(stream, roots, dopts.Opts()...)
 	} else {
+		if target == "path-v2-first-header-fails" {
+			// the first write of the CARv1 header fails (3 bytes get through), every later write works:
+			// the Put fails, the caller puts again, the writer starts the file over
+			tp := iofault.TapPath(path)
+			tp.SetFaults([]iofault.Fault{{At: 0, Keep: 3}})
+			defer iofault.UntapPath(path)
+		}
 		w = deferred.NewDeferredCarWriterForPath(path, roots, cfg.Opts()...)
 	}
+	pathFailed := false
 	// the direct writer with the same roots/options, fed the same puts
 	direct := iofault.New(nil)
 	direct.NoLog = true
@@ -211,6 +219,11 @@ func c20RunHistory(t *mon.T, target string, hist []string, dir string) {
 				}
 			}
 			cbs = keep
+			if err != nil && target == "path-v2-first-header-fails" && !pathFailed {
+				pathFailed = true // the injected fault: this Put is not acknowledged, the next one starts over
+				t.Cover("failing-path:first-put-failed")
+				break
+			}
 			if err != nil && failing {
 				streamFailed = true
 				started = true // the first Put was attempted: output may exist from here on
@@ -246,8 +259,11 @@ func c20RunHistory(t *mon.T, target string, hist []string, dir string) {
 				}
 				break
 			}
-			if err != nil && !streamFailed {
+			if err != nil && !streamFailed && !(pathFailed && !started) {
 				viol("Close/error", "step %d: Close failed: %v", i, err)
+			}
+			if pathFailed && started {
+				t.Cover("failing-path:restarted-and-closed")
 			}
 			if streamFailed {
 				t.Cover("failing-stream:close-after-failure")
@@ -265,7 +281,7 @@ func c20RunHistory(t *mon.T, target string, hist []string, dir string) {
 		// observations after every step
 		out, exists := output()
 		if !started {
-			if exists {
+			if exists && !pathFailed {
 				what := "the file exists"
 				if isStream {
 					what = fmt.Sprintf("%d write(s) reached the stream", stream.writes)
@@ -338,7 +354,7 @@ func runC20(t *mon.T, raw json.RawMessage) {
 }
 
 func genC20(g *mon.G) {
-	targets := []string{"path-v1", "path-v2", "path-v2-opts", "stream", "stream-opts", "stream-writerat-v2", "stream-failing", "stream-writerat-default"}
+	targets := []string{"path-v1", "path-v2", "path-v2-opts", "stream", "stream-opts", "stream-writerat-v2", "stream-failing", "stream-writerat-default", "path-v2-first-header-fails"}
 	depth := g.Pick(3, 5) // histories up to length 1+depth
 	for _, tg := range targets {
 		for _, op := range c20Ops {
@@ -355,10 +371,10 @@ func init() {
 	Register(&mon.Check{
 		ID:          "C20",
 		Level:       "exploration",
-		Rule:        "EXHAUSTIVE: all op strings of length ≤ 4 (quick) / ≤ 6 (thorough) over {OnPut(once), OnPut(always), Has(k1), Has(k2), Put(k1), Put(k2), Put(identity), Close} x 8 targets (a stream that is an io.WriterAt with default options, path CARv1, path CARv2, path CARv2 with paddings/codec/identity options, stream, stream with options, a stream that is an io.WriterAt with WriteAsCarV1(false), a stream that breaks after 20/59/70/110 bytes: callbacks still once per Put, and after the first Close, whatever it returned, every call reports closed), plus random strings of length 5-30; after EVERY step: no write on the stream / no file before the first Put, then output bytes equal to a directly constructed storage.NewWritable fed the same puts, callback log equal to the model's (registration order, once-callbacks exactly once), closed-error after Close. A case = all strings sharing a first op; counters.histories counts individual strings",
+		Rule:        "EXHAUSTIVE: all op strings of length ≤ 4 (quick) / ≤ 6 (thorough) over {OnPut(once), OnPut(always), Has(k1), Has(k2), Put(k1), Put(k2), Put(identity), Close} x 9 targets (a path whose first header write fails and which is started over by the next Put, a stream that is an io.WriterAt with default options, path CARv1, path CARv2, path CARv2 with paddings/codec/identity options, stream, stream with options, a stream that is an io.WriterAt with WriteAsCarV1(false), a stream that breaks after 20/59/70/110 bytes: callbacks still once per Put, and after the first Close, whatever it returned, every call reports closed), plus random strings of length 5-30; after EVERY step: no write on the stream / no file before the first Put, then output bytes equal to a directly constructed storage.NewWritable fed the same puts, callback log equal to the model's (registration order, once-callbacks exactly once), closed-error after Close. A case = all strings sharing a first op; counters.histories counts individual strings",
 		Assumptions: []string{"the direct writer itself is judged by C01/C05; here only equality with it", "callbacks are registered from the same goroutine (OnPut is registration, not a concurrent operation)"},
 		Gen:         genC20,
 		Run:         runC20,
-		MinCover:    map[string]int{"histories": 10000, "lazy-steps-observed": 1000, "byte-comparisons": 5000, "first-put": 1000, "close-before-put": 100, "close-after-put": 500, "histories-with-callbacks": 1000, "failing-stream:put-failed": 100, "roots:empty-list": 100, "roots:nil": 100, "failing-stream:close-after-failure": 50},
+		MinCover:    map[string]int{"histories": 10000, "lazy-steps-observed": 1000, "byte-comparisons": 5000, "first-put": 1000, "close-before-put": 100, "close-after-put": 500, "histories-with-callbacks": 1000, "failing-stream:put-failed": 100, "failing-path:first-put-failed": 100, "failing-path:restarted-and-closed": 50, "roots:empty-list": 100, "roots:nil": 100, "failing-stream:close-after-failure": 50},
 	})
 }
